@@ -306,6 +306,26 @@ theorem identity_copy_roundtrips (f : PN V → PN V) (hf : ∀ t, f t = renamePN
       show f (Nat.repeat f n t) = t
       rw [identity_copy_roundtrips f hf n t, hf t, renamePN_id]
 
+/-! ### database rows: the counter of a rebuilt collection (repaired behaviour, fixes/C08-db-collection-item-number) -/
+
+/-- appending to a collection reloaded from the database never overwrites a member: the counter is beyond every
+positional name -/
+theorem db_counter_beyond_members (ps : List (Option Nat)) (k : Nat) (h : some k ∈ ps) : k < nextPosition ps :=
+  nextPosition_gt ps k h
+
+/-- for a list-built collection (members `0 … n-1`, possibly with named members among them) the counter is the
+original one: `n` -/
+theorem db_counter_of_list_built (ps : List (Option Nat)) (n : Nat)
+    (hall : ∀ k, some k ∈ ps → k < n) (hlast : n = 0 ∨ some (n - 1) ∈ ps) : nextPosition ps = n := by
+  apply Nat.le_antisymm (nextPosition_le_of_all_lt ps n hall)
+  rcases hlast with h | h
+  · omega
+  · have := nextPosition_gt ps (n - 1) h
+    omega
+
+example : nextPosition [some 0, some 1, none, some 2] = 3 := by decide
+example : nextPosition [none, none] = 0 := by decide
+
 /-! ### non-vacuity: prior 7 shared between an argument, a tuple member, an arithmetic relation and a chained
 assertion; prior 5 met first inside the child's assertion and only later as an argument; a fixed component -/
 
